@@ -17,11 +17,11 @@ theorem _root_.Taskpool.Tame.cur {p q : Pool} (h : Tame p q) {t : Nat} {s : Soft
   rw [hx] at hy; cases hy
   exact ⟨q.tasks[t], by simp [hlt], e.trans hs⟩
 
-theorem Cur.ok {cap : Cap} {L : Bool} {p : Pool} {t : Nat} {s : SoftP} (hc : p.Cur t s) (hg : Good cap L p) : OKs p.lost s := by
+theorem Cur.ok {cap : Cap} {L R : Bool} {p : Pool} {t : Nat} {s : SoftP} (hc : p.Cur t s) (hg : Good cap L R p) : OKs p.lost s := by
   obtain ⟨x, hx, hs⟩ := hc
   rw [← hs]; exact hg.life t x hx
 
-theorem Cur.nyr {cap : Cap} {L : Bool} {p : Pool} {t : Nat} {s : SoftP} (hc : p.Cur t s) (hg : Good cap L p)
+theorem Cur.nyr {cap : Cap} {L R : Bool} {p : Pool} {t : Nat} {s : SoftP} (hc : p.Cur t s) (hg : Good cap L R p)
     (hn : NYR s.phase = true) : s.released = false := by
   obtain ⟨x, hx, hs⟩ := hc
   have := hg.phase t x hx (by rw [← hs] at hn; exact hn)
@@ -42,14 +42,14 @@ theorem heldL_modify_at (ts : List PTask) (t : Nat) (f : PTask → PTask) (x : P
 
 /-- **the generic leaf**, everything but the map books: an update of task `t` whose effect on the soft profile is `g`,
 keeping `released` -/
-theorem good0_cur {cap : Cap} {L : Bool} (p : Pool) (t : Nat) (f : PTask → PTask) (g : SoftP → SoftP)
-    (hfg : ∀ x, (f x).soft = g x.soft) (hg : Good0 cap L p) (s : SoftP) (hc : p.Cur t s)
+theorem good0_cur {cap : Cap} {L R : Bool} (p : Pool) (t : Nat) (f : PTask → PTask) (g : SoftP → SoftP)
+    (hfg : ∀ x, (f x).soft = g x.soft) (hg : Good0 cap L R p) (s : SoftP) (hc : p.Cur t s)
     (hrel : (g s).released = s.released)
     (hnyr : NYR (g s).phase = true → s.released = false)
     (hcan : t ∈ p.cancelledR → (g s).phase ≠ .created ∧ (g s).phase ≠ .inWorker)
     (hok : OKs p.lost (g s))
     (hfin : s.phase = .finished → (g s).phase = .finished := by intro h; first | exact h | rfl | simp_all) :
-    Good0 cap L (p.modTask t f) ∧ (p.modTask t f).Cur t (g s) := by
+    Good0 cap L R (p.modTask t f) ∧ (p.modTask t f).Cur t (g s) := by
   obtain ⟨x, hx, hs⟩ := hc
   have hfx : (f x).soft = g s := by rw [hfg, hs]
   have hrelx : (f x).released = x.released := by
@@ -68,7 +68,7 @@ theorem good0_cur {cap : Cap} {L : Bool} (p : Pool) (t : Nat) (f : PTask → PTa
       apply hfin
       rw [← hs]; exact hyf
     · exact ⟨y, by simp only [modTask_tasks, List.getElem?_modify, e, if_false, hy]; rfl, hyf⟩
-  refine ⟨⟨?_, ?_, ?_, hg.grp.of_eq rfl (by simp [modTask]), ?_, hfl, hg.ll, hg.al⟩, ⟨f x, getElem?_modify_eq _ _ _ _ hx, hfx⟩⟩
+  refine ⟨⟨?_, ?_, ?_, hg.grp.of_eq rfl (by simp [modTask]), ?_, hfl, hg.wk.of_eq rfl rfl, hg.rz, hg.ll, hg.al⟩, ⟨f x, getElem?_modify_eq _ _ _ _ hx, hfx⟩⟩
   · cases cap with
     | fin n =>
       obtain ⟨v, hv, hsum⟩ := hg.slot
@@ -98,15 +98,15 @@ theorem good0_cur {cap : Cap} {L : Bool} (p : Pool) (t : Nat) (f : PTask → PTa
     · exact hg.life i y hy
 
 /-- **the generic leaf**: … that moves no map slot either -/
-theorem good_cur {cap : Cap} {L : Bool} (p : Pool) (t : Nat) (f : PTask → PTask) (g : SoftP → SoftP)
-    (hfg : ∀ x, (f x).soft = g x.soft) (hg : Good cap L p) (s : SoftP) (hc : p.Cur t s)
+theorem good_cur {cap : Cap} {L R : Bool} (p : Pool) (t : Nat) (f : PTask → PTask) (g : SoftP → SoftP)
+    (hfg : ∀ x, (f x).soft = g x.soft) (hg : Good cap L R p) (s : SoftP) (hc : p.Cur t s)
     (hrel : (g s).released = s.released)
     (hnyr : NYR (g s).phase = true → s.released = false)
     (hcan : t ∈ p.cancelledR → (g s).phase ≠ .created ∧ (g s).phase ≠ .inWorker)
     (hok : OKs p.lost (g s))
     (hmap : (g s).mapHeld = s.mapHeld ∧ (g s).req = s.req := by exact ⟨rfl, rfl⟩)
     (hfin : s.phase = .finished → (g s).phase = .finished := by intro h; first | exact h | rfl | simp_all) :
-    Good cap L (p.modTask t f) ∧ (p.modTask t f).Cur t (g s) := by
+    Good cap L R (p.modTask t f) ∧ (p.modTask t f).Cur t (g s) := by
   obtain ⟨h0, hc'⟩ := good0_cur p t f g hfg hg.toGood0 s hc hrel hnyr hcan hok hfin
   obtain ⟨x, hx, hs⟩ := hc
   have hfx : (f x).soft = g s := by rw [hfg, hs]
@@ -171,13 +171,13 @@ theorem _root_.Taskpool.OKs.finished {lost : Bool} {s : SoftP} (h : OKs lost s) 
       · have : s.nCC = 1 := by omega
         rw [h2 this] at hw'; cases hw'
 
-theorem good_setLost {cap : Cap} (p : Pool) (hg : Good cap true p) : Good cap true ({ p with lost := true } : Pool) :=
+theorem good_setLost {cap : Cap} (p : Pool) (hg : Good cap true R p) : Good cap true R ({ p with lost := true } : Pool) :=
   ⟨⟨hg.slot, hg.phase, hg.reg.setLost, hg.grp.of_eq rfl rfl, fun t tk h => (hg.life t tk h).toLost,
-    hg.fl.frame rfl rfl (fun _ h => h),
+    hg.fl.frame rfl rfl (fun _ h => h), hg.wk.of_eq rfl rfl, hg.rz,
     fun h => Bool.noConfusion h, fun h => Bool.noConfusion h⟩, hg.map.of_eq rfl rfl⟩
 
 /-- in the strict variant the registries are complete, so `_task_ending` finds the id (no `KeyError`) -/
-theorem strict_moveToEnded {cap : Cap} (p : Pool) (t : Nat) (hg : Good cap false p) (s : SoftP) (hc : p.Cur t s)
+theorem strict_moveToEnded {cap : Cap} (p : Pool) (t : Nat) (hg : Good cap false R p) (s : SoftP) (hc : p.Cur t s)
     (hrel : s.released = false) : p.moveToEnded t ≠ none := by
   obtain ⟨x, hx, hs⟩ := hc
   have hr : x.released = false := by rw [← hs] at hrel; exact hrel
@@ -190,8 +190,8 @@ theorem strict_moveToEnded {cap : Cap} (p : Pool) (t : Nat) (hg : Good cap false
     · simp [h', h]
 
 /-- the asyncio Task of pool task `t` completes -/
-theorem good_completeTask {cap : Cap} {L : Bool} (p : Pool) (t : Nat) (o : Outcome) (hg : Good cap L p) (s : SoftP) (hc : p.Cur t s)
-    (hfin : OKs p.lost (s.setPhase .finished)) : Good cap L (p.completeTask t o) := by
+theorem good_completeTask {cap : Cap} {L R : Bool} (p : Pool) (t : Nat) (o : Outcome) (hg : Good cap L R p) (s : SoftP) (hc : p.Cur t s)
+    (hfin : OKs p.lost (s.setPhase .finished)) : Good cap L R (p.completeTask t o) := by
   unfold completeTask
   obtain ⟨x, hx, hs⟩ := hc
   simp only [hx]
@@ -199,15 +199,15 @@ theorem good_completeTask {cap : Cap} {L : Bool} (p : Pool) (t : Nat) (o : Outco
   exact (good_cur p t _ (fun s => s.setPhase .finished) (fun _ => rfl) hg s ⟨x, hx, hs⟩ rfl
     (fun h => by simp [SoftP.setPhase, NYR] at h) (fun _ => by simp [SoftP.setPhase]) hfin).1
 
-theorem good_finishTask {cap : Cap} {L : Bool} (p : Pool) (t : Nat) (hg : Good cap L p) (s : SoftP) (hc : p.Cur t s)
-    (hfin : OKs p.lost (s.setPhase .finished)) : Good cap L (p.finishTask t) := by
+theorem good_finishTask {cap : Cap} {L R : Bool} (p : Pool) (t : Nat) (hg : Good cap L R p) (s : SoftP) (hc : p.Cur t s)
+    (hfin : OKs p.lost (s.setPhase .finished)) : Good cap L R (p.finishTask t) := by
   unfold finishTask
   obtain ⟨x, hx, hs⟩ := hc
   simp only [hx]
   exact good_completeTask p t _ hg s ⟨x, hx, hs⟩ hfin
 
-theorem good_keyErrorFinish {cap : Cap} (p : Pool) (t) (hg : Good cap true p) (s : SoftP) (hc : p.Cur t s)
-    (hph : s.phase = .wrapUp) : Good cap true (p.keyErrorFinish t) := by
+theorem good_keyErrorFinish {cap : Cap} (p : Pool) (t) (hg : Good cap true R p) (s : SoftP) (hc : p.Cur t s)
+    (hph : s.phase = .wrapUp) : Good cap true R (p.keyErrorFinish t) := by
   unfold keyErrorFinish
   have hg1 := good_setLost p hg
   have hc1 : ({ p with lost := true } : Pool).Cur t s := hc
@@ -243,10 +243,10 @@ theorem Cur.of_tame0 {p q : Pool} (h : Tame0 p q) {t : Nat} {s : SoftP} (hc : p.
   rw [hx] at hy; cases hy
   exact ⟨q.tasks[t], by simp [hlt], e.trans hs⟩
 
-theorem good_releaseMapSlot {cap : Cap} {L : Bool} (p : Pool) (t : Nat) (tk : PTask) (hg : Good cap L p) (s : SoftP)
+theorem good_releaseMapSlot {cap : Cap} {L R : Bool} (p : Pool) (t : Nat) (tk : PTask) (hg : Good cap L R p) (s : SoftP)
     (hc : p.Cur t s) (hr : s.released = true) (hph : s.phase = .wrapUp) (hmh : s.isMap = true → s.mapHeld = true)
     (hi : tk.isMap = s.isMap) (hq : tk.req = s.req) :
-    Good cap L (p.releaseMapSlot t tk) ∧ (p.releaseMapSlot t tk).Cur t s.dropMapIf ∧
+    Good cap L R (p.releaseMapSlot t tk) ∧ (p.releaseMapSlot t tk).Cur t s.dropMapIf ∧
       (p.releaseMapSlot t tk).lost = p.lost := by
   unfold releaseMapSlot
   split
@@ -284,9 +284,9 @@ theorem good_cbBegin_lost (p : Pool) (t : Nat) (tk : PTask) (isEnd : Bool) : (p.
   exact (Tame.trans (tame_logEv (p.modTask t (cbCount isEnd)) _) (tame_runHooks _ _ _)).lost
 
 /-- entering a callback: the ghost counter goes up by one, then the log entry and the callback's user code -/
-theorem good_cbBegin {cap : Cap} {L : Bool} (p : Pool) (t : Nat) (tk : PTask) (isEnd : Bool) (hg : Good cap L p) (s : SoftP)
+theorem good_cbBegin {cap : Cap} {L R : Bool} (p : Pool) (t : Nat) (tk : PTask) (isEnd : Bool) (hg : Good cap L R p) (s : SoftP)
     (hc : p.Cur t s) (hnot : s.phase = .wrapUp) (hok : OKs p.lost (s.incCb isEnd)) :
-    Good cap L (p.cbBegin t tk isEnd) ∧ (p.cbBegin t tk isEnd).Cur t (s.incCb isEnd) := by
+    Good cap L R (p.cbBegin t tk isEnd) ∧ (p.cbBegin t tk isEnd).Cur t (s.incCb isEnd) := by
   unfold cbBegin
   simp only
   have h1 := good_cur p t (cbCount isEnd) (fun s => s.incCb isEnd)
@@ -304,11 +304,11 @@ theorem good_cbBegin {cap : Cap} {L : Bool} (p : Pool) (t : Nat) (tk : PTask) (i
   · exact Tame.trans (tame_logEv _ _) (tame_runHooks _ _ _)
 
 /-- suspending on a harness future in phase `ph` -/
-theorem good_suspend {cap : Cap} {L : Bool} (p : Pool) (t : Nat) (ph : Phase) (hg : Good cap L p) (s : SoftP) (hc : p.Cur t s)
+theorem good_suspend {cap : Cap} {L R : Bool} (p : Pool) (t : Nat) (ph : Phase) (hg : Good cap L R p) (s : SoftP) (hc : p.Cur t s)
     (hnyr : NYR ph = true → s.released = false)
     (hcan : t ∈ p.cancelledR → ph ≠ .created ∧ ph ≠ .inWorker)
     (hok : OKs p.lost (s.setPhase ph)) (hnf : s.phase ≠ .finished) :
-    Good cap L (p.suspendTask t ph) ∧ (p.suspendTask t ph).Cur t (s.setPhase ph) := by
+    Good cap L R (p.suspendTask t ph) ∧ (p.suspendTask t ph).Cur t (s.setPhase ph) := by
   unfold suspendTask
   obtain ⟨x, hx, hs⟩ := hc
   simp only [hx]
@@ -356,10 +356,10 @@ theorem _root_.Taskpool.OKs.toEndCb {lost : Bool} {s : SoftP} (h : OKs lost s) (
   · intro hc; simp [SoftP.setPhase] at hc
 
 /-- the end callback stage of `_task_ending`, for a task that has just been filed as ended and released -/
-theorem good_endCallbackTail {cap : Cap} {L : Bool} (q : Pool) (t : Nat) (tk : PTask) (hg0 : Good cap L q) (s : SoftP) (hc0 : q.Cur t s)
+theorem good_endCallbackTail {cap : Cap} {L R : Bool} (q : Pool) (t : Nat) (tk : PTask) (hg0 : Good cap L R q) (s : SoftP) (hc0 : q.Cur t s)
     (hr : s.released = true) (hph : s.phase = .wrapUp) (hne : s.nEC = 0)
     (hA : s.wasCancelled = true → s.cancelCb ≠ .none → s.nCC = 1) (hspec : tk.endCb = s.endCb) :
-    Good cap L (if (q.runCb t tk true).2 = true then (q.runCb t tk true).1 else (q.runCb t tk true).1.finishTask t) := by
+    Good cap L R (if (q.runCb t tk true).2 = true then (q.runCb t tk true).1 else (q.runCb t tk true).1.finishTask t) := by
   have hok := hc0.ok hg0
   unfold runCb
   simp only [if_true]
@@ -406,20 +406,20 @@ theorem good_endCallbackTail {cap : Cap} {L : Bool} (q : Pool) (t : Nat) (tk : P
 
 
 /-- the end callback stage of `_task_ending`, for a task that has just been filed as ended and released -/
-theorem good_endCallback {cap : Cap} {L : Bool} (p : Pool) (t : Nat) (tk : PTask) (hg : Good cap L p) (s : SoftP) (hc : p.Cur t s)
+theorem good_endCallback {cap : Cap} {L R : Bool} (p : Pool) (t : Nat) (tk : PTask) (hg : Good cap L R p) (s : SoftP) (hc : p.Cur t s)
     (hr : s.released = true) (hph : s.phase = .wrapUp) (hne : s.nEC = 0)
     (hA : s.wasCancelled = true → s.cancelCb ≠ .none → s.nCC = 1) (hspec : tk.endCb = s.endCb)
     (hmh : s.isMap = true → s.mapHeld = true) (hi : tk.isMap = s.isMap) (hq : tk.req = s.req) :
-    Good cap L (p.endCallback t tk) := by
+    Good cap L R (p.endCallback t tk) := by
   unfold endCallback
   simp only
   obtain ⟨hg0, hc0, _⟩ := good_releaseMapSlot p t tk hg s hc hr hph hmh hi hq
   exact good_endCallbackTail _ t tk hg0 s.dropMapIf hc0 hr hph hne hA hspec
 
 /-- the id is filed as ended, the slot is given back and the task marked released — one atomic leaf -/
-theorem good_moveRelease {cap : Cap} {L : Bool} (p p1 : Pool) (t : Nat) (hg : Good cap L p) (s : SoftP) (hc : p.Cur t s)
+theorem good_moveRelease {cap : Cap} {L R : Bool} (p p1 : Pool) (t : Nat) (hg : Good cap L R p) (s : SoftP) (hc : p.Cur t s)
     (he : Ending s) (hm : p.moveToEnded t = some p1) :
-    Good cap L ((p1.releasePool).modTask t fun k => { k with released := true }) ∧
+    Good cap L R ((p1.releasePool).modTask t fun k => { k with released := true }) ∧
     ((p1.releasePool).modTask t fun k => { k with released := true }).Cur t s.release := by
   obtain ⟨tk, a, hs⟩ := hc
   have b : tk.released = false := by have := he.rel; rw [← hs] at this; exact this
@@ -458,7 +458,13 @@ theorem good_moveRelease {cap : Cap} {L : Bool} (p p1 : Pool) (t : Nat) (hg : Go
         rw [a] at hy; cases hy
         exact ⟨_, getElem?_modify_eq _ _ _ _ a, hyf⟩
       · exact ⟨y, by simp only [List.getElem?_modify, e, if_false, hy]; rfl, hyf⟩
-  refine ⟨⟨⟨?_, ?_, ?_, hg.grp.of_eq hgr (by simp [modTask, h3, ht1]), ?_, hfl, fun h => by rw [hlost]; exact hg.ll h,
+  have hwk : WakeOK ((p1.releasePool).modTask t fun k => { k with released := true }) :=
+    (wakeOK_releasePool p1).of_eq rfl rfl
+  refine ⟨⟨⟨?_, ?_, ?_, hg.grp.of_eq hgr (by simp [modTask, h3, ht1]), ?_, hfl, hwk,
+    fun h => by
+      rw [show ((p1.releasePool).modTask t fun k => { k with released := true }).resized = p1.releasePool.resized from rfl,
+        releasePool_resized, moveToEnded_resized p p1 t hm]; exact hg.rz h,
+    fun h => by rw [hlost]; exact hg.ll h,
     fun h => by rw [hap]; exact hg.al h⟩, hmp⟩, ⟨_, hget, by rw [← hs]; rfl⟩⟩
   · cases cap with
     | fin n =>
@@ -494,8 +500,8 @@ theorem good_moveRelease {cap : Cap} {L : Bool} (p p1 : Pool) (t : Nat) (hg : Go
     · exact hg.life i x hx
 
 /-- `_task_ending` for a task that is ready to end -/
-theorem good_taskEnding {cap : Cap} {L : Bool} (p : Pool) (t : Nat) (hg : Good cap L p) (s : SoftP) (hc : p.Cur t s)
-    (he : Ending s) : Good cap L (p.taskEnding t) := by
+theorem good_taskEnding {cap : Cap} {L R : Bool} (p : Pool) (t : Nat) (hg : Good cap L R p) (s : SoftP) (hc : p.Cur t s)
+    (he : Ending s) : Good cap L R (p.taskEnding t) := by
   unfold taskEnding
   obtain ⟨x, hx, hs⟩ := hc
   simp only [hx]
@@ -549,9 +555,9 @@ theorem _root_.Taskpool.OKs.toCancelCb {lost : Bool} {s : SoftP} (h : OKs lost s
   · intro hc; simp [SoftP.setPhase] at hc
 
 /-- the cancel callback, then `_task_ending` unless the wrapper is suspended inside a coroutine callback -/
-theorem good_cancelCallback {cap : Cap} {L : Bool} (p : Pool) (t : Nat) (tk : PTask) (hg : Good cap L p) (s : SoftP) (hc : p.Cur t s)
+theorem good_cancelCallback {cap : Cap} {L R : Bool} (p : Pool) (t : Nat) (tk : PTask) (hg : Good cap L R p) (s : SoftP) (hc : p.Cur t s)
     (hph : s.phase = .wrapUp) (hrel : s.released = false) (hn : s.nCC = 0) (hw : s.wasCancelled = true)
-    (hspec : tk.cancelCb = s.cancelCb) : Good cap L (p.cancelCallback t tk) := by
+    (hspec : tk.cancelCb = s.cancelCb) : Good cap L R (p.cancelCallback t tk) := by
   unfold cancelCallback
   simp only
   have hok := hc.ok hg
@@ -588,17 +594,17 @@ theorem good_cancelCallback {cap : Cap} {L : Bool} (p : Pool) (t : Nat) (tk : PT
     exact hinc.toCancelCb (by show s.nCC + 1 = 1; omega) hccb hrel
 
 /-- `except CancelledError: await self._task_cancellation(...)`, then the `finally` -/
-theorem good_taskCancellation {cap : Cap} {L : Bool} (p : Pool) (t : Nat) (tk : PTask) (hg : Good cap L p) (s : SoftP) (hc : p.Cur t s)
+theorem good_taskCancellation {cap : Cap} {L R : Bool} (p : Pool) (t : Nat) (tk : PTask) (hg : Good cap L R p) (s : SoftP) (hc : p.Cur t s)
     (hph : s.phase = .wrapUp) (hrel : s.released = false) (hn : s.nCC = 0) (hwf : s.wasCancelled = false)
-    (hspec : tk.cancelCb = s.cancelCb) (hnc : t ∉ p.cancelledR) : Good cap L (p.taskCancellation t tk) := by
+    (hspec : tk.cancelCb = s.cancelCb) (hnc : t ∉ p.cancelledR) : Good cap L R (p.taskCancellation t tk) := by
   unfold taskCancellation
   have hok := hc.ok hg
   split
   · rename_i hrun
     have ht : t ∈ p.running := by simpa using hrun
     -- the registry move
-    have hg1 : Good cap L ({ p with running := p.running.erase t, cancelledR := p.cancelledR ++ [t] } : Pool) := by
-      refine ⟨⟨hg.slot, hg.phase, hg.reg.regCancel t ht ?_, hg.grp.of_eq rfl rfl, hg.life, hg.fl.frame rfl rfl (fun _ h => h), hg.ll, hg.al⟩, hg.map.of_eq rfl rfl⟩
+    have hg1 : Good cap L R ({ p with running := p.running.erase t, cancelledR := p.cancelledR ++ [t] } : Pool) := by
+      refine ⟨⟨hg.slot, hg.phase, hg.reg.regCancel t ht ?_, hg.grp.of_eq rfl rfl, hg.life, hg.fl.frame rfl rfl (fun _ h => h), hg.wk.of_eq rfl rfl, hg.rz, hg.ll, hg.al⟩, hg.map.of_eq rfl rfl⟩
       intro tk' h
       obtain ⟨x, hx, hs⟩ := hc
       rw [hx] at h; cases h
@@ -641,21 +647,21 @@ structure InWork (s : SoftP) : Prop where
   wc : s.wasCancelled = false
   nf : s.phase ≠ .finished
 
-theorem inWork_of {cap : Cap} {L : Bool} {p : Pool} {t : Nat} {s : SoftP} (hc : p.Cur t s) (hg : Good cap L p)
+theorem inWork_of {cap : Cap} {L R : Bool} {p : Pool} {t : Nat} {s : SoftP} (hc : p.Cur t s) (hg : Good cap L R p)
     (hph : s.phase = .created ∨ s.phase = .inWorker) : InWork s :=
   ⟨hc.nyr hg (by rcases hph with h | h <;> rw [h] <;> rfl), ((hc.ok hg).c0 hph).1, ((hc.ok hg).c0 hph).2,
     by rcases hph with h | h <;> rw [h] <;> simp⟩
 
 /-- enter `wrapUp` (the worker is over), keeping everything else -/
-theorem good_toWrapUp {cap : Cap} {L : Bool} (p : Pool) (t : Nat) (f : PTask → PTask) (hf : ∀ x, (f x).soft = x.soft.setPhase .wrapUp)
-    (hg : Good cap L p) (s : SoftP) (hc : p.Cur t s) (hnf : s.phase ≠ .finished) :
-    Good cap L (p.modTask t f) ∧ (p.modTask t f).Cur t (s.setPhase .wrapUp) :=
+theorem good_toWrapUp {cap : Cap} {L R : Bool} (p : Pool) (t : Nat) (f : PTask → PTask) (hf : ∀ x, (f x).soft = x.soft.setPhase .wrapUp)
+    (hg : Good cap L R p) (s : SoftP) (hc : p.Cur t s) (hnf : s.phase ≠ .finished) :
+    Good cap L R (p.modTask t f) ∧ (p.modTask t f).Cur t (s.setPhase .wrapUp) :=
   good_cur p t f (fun s => s.setPhase .wrapUp) hf hg s hc rfl (fun h => by simp [SoftP.setPhase, NYR] at h)
     (fun _ => by simp [SoftP.setPhase]) ((hc.ok hg).setPhase_free .wrapUp (Or.inl rfl)) ⟨rfl, rfl⟩ (fun h => absurd h hnf)
 
 /-- the worker coroutine is over (normally or with an exception): `wrapUp`, then `_task_ending` -/
-theorem good_afterWorker {cap : Cap} {L : Bool} (p : Pool) (t : Nat) (e : Option Err) (hg : Good cap L p) (s : SoftP) (hc : p.Cur t s)
-    (hw : InWork s) : Good cap L (p.afterWorker t e) := by
+theorem good_afterWorker {cap : Cap} {L R : Bool} (p : Pool) (t : Nat) (e : Option Err) (hg : Good cap L R p) (s : SoftP) (hc : p.Cur t s)
+    (hw : InWork s) : Good cap L R (p.afterWorker t e) := by
   unfold afterWorker
   split
   · have t0 := tame_logEv p (Ev.returned t)
@@ -668,9 +674,9 @@ theorem good_afterWorker {cap : Cap} {L : Bool} (p : Pool) (t : Nat) (e : Option
       (fun _ => rfl) (t0.good hg) s (t0.cur hc) hw.nf
     exact good_taskEnding _ t hg1 _ hc1 ⟨hw.rel, rfl, fun h => by rw [show (s.setPhase .wrapUp).wasCancelled = s.wasCancelled from rfl, hw.wc] at h; cases h⟩
 
-theorem good_stepCreated {cap : Cap} {L : Bool} (p : Pool) (t : Nat) (tk : PTask) (hg : Good cap L p) (s : SoftP) (hc : p.Cur t s)
+theorem good_stepCreated {cap : Cap} {L R : Bool} (p : Pool) (t : Nat) (tk : PTask) (hg : Good cap L R p) (s : SoftP) (hc : p.Cur t s)
     (hph : s.phase = .created) (hnc : t ∉ p.cancelledR) (hspec : tk.cancelCb = s.cancelCb) :
-    Good cap L (p.stepCreated t tk) := by
+    Good cap L R (p.stepCreated t tk) := by
   have hw := inWork_of hc hg (Or.inl hph)
   unfold stepCreated
   split
@@ -706,9 +712,9 @@ theorem _root_.Taskpool.OKs.sawCancel {lost : Bool} {s : SoftP} (h : OKs lost s)
   · intro hc; simp [SoftP.sawCancel] at hc
 
 /-- the worker observes a `CancelledError` at its suspension point — for the first and only time -/
-theorem good_workerCancelled {cap : Cap} {L : Bool} (p : Pool) (t : Nat) (tk : PTask) (hg : Good cap L p) (s : SoftP) (hc : p.Cur t s)
+theorem good_workerCancelled {cap : Cap} {L R : Bool} (p : Pool) (t : Nat) (tk : PTask) (hg : Good cap L R p) (s : SoftP) (hc : p.Cur t s)
     (hw : InWork s) (hsaw : s.nSaw = 0) (hspec : tk.cancelCb = s.cancelCb) (hnc : t ∉ p.cancelledR) :
-    Good cap L (p.workerCancelled t tk) := by
+    Good cap L R (p.workerCancelled t tk) := by
   unfold workerCancelled
   simp only
   have t0 := tame_logEv p (Ev.sawCancel t)
@@ -722,8 +728,8 @@ theorem good_workerCancelled {cap : Cap} {L : Bool} (p : Pool) (t : Nat) (tk : P
   · exact good_afterWorker _ t _ hg1 _ hc1 ⟨hw.rel, hw.ncc, hw.wc, by simp [SoftP.sawCancel]⟩
   · exact good_taskCancellation _ t tk hg1 _ hc1 rfl hw.rel hw.ncc hw.wc hspec hnc
 
-theorem good_stepInWorker {cap : Cap} {L : Bool} (p : Pool) (t : Nat) (tk : PTask) (hg : Good cap L p) (s : SoftP) (hc : p.Cur t s)
-    (hph : s.phase = .inWorker) (hspec : tk.cancelCb = s.cancelCb) : Good cap L (p.stepInWorker t tk) := by
+theorem good_stepInWorker {cap : Cap} {L R : Bool} (p : Pool) (t : Nat) (tk : PTask) (hg : Good cap L R p) (s : SoftP) (hc : p.Cur t s)
+    (hph : s.phase = .inWorker) (hspec : tk.cancelCb = s.cancelCb) : Good cap L R (p.stepInWorker t tk) := by
   have hw := inWork_of hc hg (Or.inr hph)
   unfold stepInWorker
   split
@@ -739,13 +745,13 @@ theorem good_stepInWorker {cap : Cap} {L : Bool} (p : Pool) (t : Nat) (tk : PTas
     · exact good_afterWorker p t _ hg s hc hw
     · exact hg
 
-theorem good_stepInCancelCb {cap : Cap} {L : Bool} (p : Pool) (t : Nat) (tk : PTask) (hg : Good cap L p) (s : SoftP) (hc : p.Cur t s)
-    (hph : s.phase = .inCancelCb) : Good cap L (p.stepInCancelCb t tk) := by
+theorem good_stepInCancelCb {cap : Cap} {L R : Bool} (p : Pool) (t : Nat) (tk : PTask) (hg : Good cap L R p) (s : SoftP) (hc : p.Cur t s)
+    (hph : s.phase = .inCancelCb) : Good cap L R (p.stepInCancelCb t tk) := by
   have hok := hc.ok hg
   have hrel : s.released = false := hc.nyr hg (by rw [hph]; rfl)
   have hcc := hok.cc hph
   have fin : ∀ (q : Pool) (f : PTask → PTask), (∀ x, (f x).soft = x.soft.setPhase .wrapUp) → Tame p q →
-      Good cap L ((q.modTask t f).taskEnding t) := by
+      Good cap L R ((q.modTask t f).taskEnding t) := by
     intro q f hf tq
     obtain ⟨hg1, hc1⟩ := good_toWrapUp q t f hf (tq.good hg) s (tq.cur hc) (by rw [hph]; simp)
     exact good_taskEnding _ t hg1 _ hc1 ⟨hrel, rfl, fun _ _ => hcc.1⟩
@@ -756,8 +762,8 @@ theorem good_stepInCancelCb {cap : Cap} {L : Bool} (p : Pool) (t : Nat) (tk : PT
   · exact fin _ _ (fun _ => rfl) (tame_logEv p _)
   · exact hg
 
-theorem good_stepInEndCb {cap : Cap} {L : Bool} (p : Pool) (t : Nat) (tk : PTask) (hg : Good cap L p) (s : SoftP) (hc : p.Cur t s)
-    (hph : s.phase = .inEndCb) : Good cap L (p.stepInEndCb t tk) := by
+theorem good_stepInEndCb {cap : Cap} {L R : Bool} (p : Pool) (t : Nat) (tk : PTask) (hg : Good cap L R p) (s : SoftP) (hc : p.Cur t s)
+    (hph : s.phase = .inEndCb) : Good cap L R (p.stepInEndCb t tk) := by
   have hok := hc.ok hg
   obtain ⟨hne, hecb, hrel⟩ := hok.ec hph
   have hfin : OKs p.lost (s.setPhase .finished) :=
@@ -776,7 +782,7 @@ theorem good_stepInEndCb {cap : Cap} {L : Bool} (p : Pool) (t : Nat) (tk : PTask
   · exact hg
 
 /-- one step of any pool task preserves all the invariants -/
-theorem good_stepTask {cap : Cap} {L : Bool} (p : Pool) (t : Nat) (hg : Good cap L p) : Good cap L (p.stepTask t) := by
+theorem good_stepTask {cap : Cap} {L R : Bool} (p : Pool) (t : Nat) (hg : Good cap L R p) : Good cap L R (p.stepTask t) := by
   unfold stepTask
   split
   · exact hg
